@@ -251,7 +251,21 @@ static int c16Main(int argc, char **argv) {
     }
     T.reset();
     int len = 20 + (int)r.below(300);
-    for (int k = 0; k < len; k++) if (!T.cycle()) break;
+    for (int k = 0; k < len; k++) {
+      if (r.below(40) == 0) {
+        // reset in the middle of a run (e.g. between a prefix and its instruction): the three designs must agree afterwards
+        T.reset();
+        Regs ra = T.sv.regs(), rb = T.v.regs(), rc = T.s.regs();
+        st.signals += 8;
+        if (!(ra == rb) || !(rb == rc)) {
+          vio::Json d; d.raw("sv", regsJson(ra)).raw("v", regsJson(rb)).raw("synth", regsJson(rc));
+          T.mismatch("registers after reset", d.done());
+          break;
+        }
+        continue;
+      }
+      if (!T.cycle()) break;
+    }
     st.cases++;
   }
   for (int i = 7; i < argc; i++) {
